@@ -154,7 +154,7 @@ claim("C09",
       "directions, truth-table equivalence of the condition of every emitted clause, limit-contract analysis of the callbacks",
       "Decides encoder/decoder agreement of both encodings (all sites use one polarity convention; the place codec is a "
       "bijection), time-reversal symmetry, that each clause kind is emitted exactly under its condition with unfiltered "
-      "ranges, that results never exceed the solution limit (empty for limit <= 0), and that the caller's request "
+      "ranges, that results never exceed the solution limit (empty for limit <= 0 and only then), and that the caller's request "
       "(enclosing subspace, avoided subspaces, retained set, problem, time direction) reaches the encoder unchanged, on "
       "every path of the two solver entry points (no early exit, no delegation to another entry point).",
       "That the logic programs have the intended models is clingo's semantics and is assumed.",
@@ -191,7 +191,8 @@ claim("C12",
       "the node's own seeds in the order given, that the reachability test returns only after saturating every variable that has "
       "an enabled step, that every growth of the reach or avoid set re-arms its fixpoint loop, and that a forward step which "
       "is possible but declined is remembered and taken later; each flag-controlled fixpoint loop of the test is entered and "
-      "a round that enlarges a state set asks for another round (the returned set is closed).",
+      "a round that enlarges a state set asks for another round (the returned set is closed); the sets of a node are computed "
+      "whenever it has a seed.",
       "Equality with the true attractor relies on AEON; agreement of the fallback as sets is not decided.",
       "DESIGN.md §3 C12")
 
